@@ -50,4 +50,7 @@ def run(check, tier):
             for k in ("a1", "b1", "c1", "a2", "b2", "c2", "a3", "b3", "c3"):
                 fixed[k] = rnd.randrange(8)
             jobs.append(dict(fn="history", fixed=fixed, timeout=t, key=f"history3:shape{sh}"))
+    # cells of different dtypes (int / bool / float32 / float64, either order): flatten / set_flattened keep every value
+    jobs.append(dict(fn="mixed_dtypes__reach", timeout=60))
+    jobs += [dict(fn="mixed_dtypes", fixed=dict(d0=d0), timeout=t, key="mixed_cell_dtypes") for d0 in range(5)]
     run_jobs(check, FILE, jobs)
